@@ -109,8 +109,8 @@ name: exact.roundtrip.nn
 define: U_ROUNDTRIP, URL_MAX=7, CMAX=3, U_PROTO=0, U_USER=0, VERIF_OWN_STRCHR, VERIF_OWN_STRLEN, VERIF_OWN_SNPRINTF, VERIF_OWN_LOOKUPS, VERIF_NO_ASSUMED_STR_CONTRACTS
 src: url.c
 tier: B
-bound: URL text <= 7 characters over {a,:,/,@,?,.,digit}, each component <= 3 characters, optional components present/absent (protocol absent, user absent); exact executable str models instead of str.c; loops unwound 28 with unwinding assertions
-unwind: 28
+bound: URL text <= 7 characters over {a,:,/,@,?,.,digit}, each component <= 3 characters, optional components present/absent (protocol absent, user absent); empty service database (no port is resolved); exact executable str models instead of str.c; loops unwound 12 with unwinding assertions
+unwind: 12
 backend: cadical
 timeout: 280
 checks_off: --pointer-overflow-check
@@ -121,8 +121,8 @@ name: exact.roundtrip.nu
 define: U_ROUNDTRIP, URL_MAX=7, CMAX=3, U_PROTO=0, U_USER=1, VERIF_OWN_STRCHR, VERIF_OWN_STRLEN, VERIF_OWN_SNPRINTF, VERIF_OWN_LOOKUPS, VERIF_NO_ASSUMED_STR_CONTRACTS
 src: url.c
 tier: B
-bound: URL text <= 7 characters over {a,:,/,@,?,.,digit}, each component <= 3 characters, optional components present/absent (protocol absent, user present); exact executable str models instead of str.c; loops unwound 28 with unwinding assertions
-unwind: 28
+bound: URL text <= 7 characters over {a,:,/,@,?,.,digit}, each component <= 3 characters, optional components present/absent (protocol absent, user present); empty service database (no port is resolved); exact executable str models instead of str.c; loops unwound 12 with unwinding assertions
+unwind: 12
 backend: cadical
 timeout: 280
 checks_off: --pointer-overflow-check
@@ -133,8 +133,8 @@ name: exact.roundtrip.pn
 define: U_ROUNDTRIP, URL_MAX=7, CMAX=3, U_PROTO=1, U_USER=0, VERIF_OWN_STRCHR, VERIF_OWN_STRLEN, VERIF_OWN_SNPRINTF, VERIF_OWN_LOOKUPS, VERIF_NO_ASSUMED_STR_CONTRACTS
 src: url.c
 tier: B
-bound: URL text <= 7 characters over {a,:,/,@,?,.,digit}, each component <= 3 characters, optional components present/absent (protocol present, user absent); exact executable str models instead of str.c; loops unwound 28 with unwinding assertions
-unwind: 28
+bound: URL text <= 7 characters over {a,:,/,@,?,.,digit}, each component <= 3 characters, optional components present/absent (protocol present, user absent); empty service database (no port is resolved); exact executable str models instead of str.c; loops unwound 12 with unwinding assertions
+unwind: 12
 backend: cadical
 timeout: 280
 checks_off: --pointer-overflow-check
@@ -145,8 +145,8 @@ name: exact.roundtrip.pu
 define: U_ROUNDTRIP, URL_MAX=7, CMAX=3, U_PROTO=1, U_USER=1, VERIF_OWN_STRCHR, VERIF_OWN_STRLEN, VERIF_OWN_SNPRINTF, VERIF_OWN_LOOKUPS, VERIF_NO_ASSUMED_STR_CONTRACTS
 src: url.c
 tier: B
-bound: URL text <= 7 characters over {a,:,/,@,?,.,digit}, each component <= 3 characters, optional components present/absent (protocol present, user present); exact executable str models instead of str.c; loops unwound 28 with unwinding assertions
-unwind: 28
+bound: URL text <= 7 characters over {a,:,/,@,?,.,digit}, each component <= 3 characters, optional components present/absent (protocol present, user present); empty service database (no port is resolved); exact executable str models instead of str.c; loops unwound 12 with unwinding assertions
+unwind: 12
 backend: cadical
 timeout: 280
 checks_off: --pointer-overflow-check
@@ -211,7 +211,11 @@ static SPIF_CONST_TYPE(strclass) s_class;       /* identity only */
 SPIF_TYPE(class) SPIF_CLASS_VAR(str) = (spif_class_t) &s_class;
 SPIF_TYPE(strclass) SPIF_STRCLASS_VAR(str) = &s_class;
 spif_bool_t spif_obj_set_class(spif_obj_t self, spif_class_t cls) { self->cls = cls; return TRUE; }
-#define MCOPY (URL_MAX + 19)        /* longest copy within the bound: canonical text ("//", "localhost", ":65535" added) + NUL */
+#ifdef U_ROUNDTRIP
+#define MCOPY (URL_MAX + 3)         /* longest copy: canonical text ("//" added; no port is resolved in these units) + NUL */
+#else
+#define MCOPY (URL_MAX + 1)         /* longest copy: the text + NUL */
+#endif
 static void m_copy(char *d, const char *s, spif_stridx_t n)
 {
     int i;
@@ -345,7 +349,13 @@ void harness(void)
 
     spif_str_strclass = &s_class; spif_str_class = (spif_class_t) &s_class; spif_url_class = &u_class;
     vg_getproto_calls = 0; vg_getserv_calls = 0;
+#ifdef U_ROUNDTRIP
+    /* round-trip units: empty service database (port resolution is covered by exact.parse.p*; a resolved port
+     * lengthens the canonical text by ":65535" and, for a bare path, by "//localhost": too long for this bound) */
+    w_serv_tcp = 0; w_serv_udp = 0; w_servproto_known = nondet_bool();
+#else
     w_serv_tcp = nondet_bool(); w_serv_udp = nondet_bool(); w_servproto_known = nondet_bool();
+#endif
     w_port = nondet_int(); __CPROVER_assume(w_port >= 0 && w_port <= 65535);
 
     pick(&proto, A_ALNUM, 1);
@@ -363,6 +373,9 @@ void harness(void)
     /* behaviour split (union of the units = every presence vector) */
     proto.has = (U_PROTO != 0);
     if (U_USER >= 0) user.has = (U_USER != 0);
+#ifdef U_HOST
+    host.has = (U_HOST != 0);
+#endif
     /* shape */
     __CPROVER_assume(!path.has || path.c[0] == '/');
     __CPROVER_assume(host.has || path.has);                       /* something to parse */
